@@ -501,6 +501,8 @@ class disjoint_set_impl {
   void clear() {
     m_comm.barrier();
     m_local_item_parent_map.clear();
+    // No rank may issue new unions before every rank has emptied its map.
+    m_comm.cf_barrier();
   }
 
   size_type size() {
